@@ -233,6 +233,11 @@ func sessionHandler(config Config) func(operations.SessionParams, interface{}) m
 			return operations.NewSessionUnauthorized().WithPayload("Token Missing Required Claims")
 		}
 
+		if claims.IssuedAt == nil || claims.NotBefore == nil {
+			// both are copied into the connection token below
+			return operations.NewSessionUnauthorized().WithPayload("Token Missing Required Claims")
+		}
+
 		if params.SessionID == "" {
 			return operations.NewSessionUnauthorized().WithPayload("Path Missing SessionID")
 		}
@@ -466,6 +471,7 @@ func claimsCheck(principal interface{}) (*permission.Token, error) {
 
 	if len(claims.Scopes) == 0 ||
 		len(claims.RegisteredClaims.Audience) == 0 ||
+		claims.RegisteredClaims.ExpiresAt == nil ||
 		(*claims.RegisteredClaims.ExpiresAt).IsZero() {
 		return nil, errors.New("Token Missing Required Claims")
 	}
